@@ -327,7 +327,9 @@ def run(c, tier, scratch, repo, driver_binary, parsed, joined, llvm, mattr, pret
                 j["block_of"].append(idx // inner)
             else:
                 j["skip"].append(idx)
-                if r is not None and r[0] == "REFUSED" and r[1] == "ERR" and idx % inner == 0:
+                # "-": the operand spec (ISA ranges) says the tuple has no encoding, so it was not even offered to llvm-mc;
+                # "ERR": llvm-mc rejects the requested instruction
+                if r is not None and r[0] == "REFUSED" and r[1] in ("ERR", "-") and idx % inner == 0:
                     omap = OPERAND_MAP.get(j["method"], ({}, ""))[0]
                     if all((k not in omap or omap[k](v) is not None) and (ty != "Int32" or -(1 << 31) <= v < (1 << 31))
                            for k, (v, ty) in enumerate(zip(t, j["dtypes"]))):
